@@ -22,7 +22,8 @@ RULE = (
     "+-{1,2,3,5} against 25 probe values (exhaustive).  Non-trivial = depth >= 2 or a container; distinct = distinct "
     "operator-shape strings."
     "  Range literals are built through the factory and through the public dataclass constructor (both routes in "
-    "the exhaustive grid). "
+    "the exhaustive grid).  Predicates are also converted through sql.Engine.convert_flattened_predicate (the list of "
+    "terms the engine itself puts into WHERE / ON clauses); the AND of the terms must agree as well. "
 )
 ASSUMPTIONS = [
     "SQLite 3 integer semantics stand in for 'a database' (64-bit integers; % is a remainder)",
